@@ -933,7 +933,10 @@ def impl_cfg_all(text):
     """impl_cfg on every configuration. The public entry point runs in full on the first configuration; for the others the
        real lexer+parser run once more and the real evaluator runs on the parsed tree (what eval_cfg does, minus re-parsing)."""
     r0 = impl_cfg(text, CFGS[0])
-    if not _FAST or r0[0] != 'val':
+    # The public entry point is used for every configuration: state kept between calls (a cache keyed too coarsely,
+    # say) is only visible when the same expression really is evaluated again through eval_cfg.  The short-cut below
+    # (real parser once + real _eval_cfg per configuration) remains only for VERIF_C20_FAST=1 experiments.
+    if not _FAST or r0[0] != 'val' or os.environ.get('VERIF_C20_FAST') != '1':
         return [r0] + [impl_cfg(text, c) for c in CFGS[1:]]
     try:
         ir = cargo_cfg.parse(cargo_cfg.lexer(text))
